@@ -1,5 +1,6 @@
 import HdVerif.Proofs.TilingFull
 import HdVerif.Model.TilingChannels
+import HdVerif.Proofs.TilingChannels
 /-! C04, write side: closed form of what the tiling loop of the Segmentation constructor stores — which (segment, tile) pairs, at
 which frame index, in which order. -/
 namespace HdVerif.TilingLemmas
@@ -404,6 +405,90 @@ theorem tiledSegTable_stored {α} [BEq α] [LawfulBEq α] (z : α) (Ms : List (I
               List.inj_on_of_nodup_map hnd (List.getElem_mem hsl) hM (by simpa using hc')
             rw [hmeq] at hms
             exact hne s t (c, M) k (cp, rp) hms h2 h3 h4
+
+
+/-! ## LABELMAP: one stored matrix, read without a channel query -/
+
+/-- a LABELMAP read is the plain region read; the state of the connection is not touched -/
+theorem stepRead_labelmap {α} (z : α) (lut : List LutRow) (frames : List (Img α)) (R C th tw : Int) (full am : Bool)
+    (rs re cs ce : Option Int) (ai : Bool) (st : TempState) :
+    stepRead z lut frames R C th tw full am (labelmapRequest rs re cs ce ai) st =
+      (st, match readRegion z lut frames R C th tw none rs re cs ce ai full am with
+           | .error e => .error e
+           | .ok (h, w, out) => .ok (h, w, fun _ => out)) := by
+  unfold stepRead labelmapRequest
+  simp only [if_true]
+  cases readRegion z lut frames R C th tw none rs re cs ce ai full am with
+  | error e => rfl
+  | ok v => obtain ⟨h, w, o⟩ := v; simp
+
+/-- **LABELMAP tile-then-read**: the label matrix `L` tiled by the constructor (stored as ONE channel, number 0) and read back without a
+channel query, after any history: the requested part of `L`. -/
+theorem tileThenHistory_labelmap {α} [BEq α] [LawfulBEq α] (z : α) (L : Img α) (R C tr tc : Int)
+    (hr : 1 ≤ tr) (hc : 1 ≤ tc) (hR : 1 ≤ R) (hC : 1 ≤ C) (full omitEmpty : Bool) (hfo : (full && omitEmpty) = false)
+    (steps : List ChanRead) (n : Nat) (rs re cs ce : Option Int) (ai : Bool)
+    (hstep : steps[n]? = some (labelmapRequest rs re cs ce ai)) (r0 r1 c0 c1 : Int)
+    (hstd : stdRowColIndices rs re cs ce R C ai false = .ok (r0, r1, c0, c1)) (hr01 : r0 ≤ r1) (hc01 : c0 ≤ c1) :
+    ∃ results out, tileThenHistory z [(0, L)] R C tr tc full omitEmpty steps = .ok results ∧
+      results[n]? = some (.ok (r1 - r0, c1 - c0, out)) ∧
+      ∀ (k : Int) i j, 0 ≤ i → i < r1 - r0 → 0 ≤ j → j < c1 - c0 → out k i j = L (r0 - 1 + i) (c0 - 1 + j) := by
+  obtain ⟨g1, g2, g3, g4, g5, g6, g7, g8⟩ := stdRowCol_range_num hstd
+  have hnd : (([((0 : Int), L)] : List (Int × Img α)).map Prod.fst).Nodup := by simp
+  have htab : ∃ oe, tiledSegTable z [(0, L)] R C tr tc full omitEmpty = tiledSegTable z [(0, L)] R C tr tc false oe := by
+    cases full with
+    | false => exact ⟨omitEmpty, rfl⟩
+    | true =>
+      have : omitEmpty = false := by simpa using hfo
+      subst this
+      exact ⟨false, tiledSegTable_full_eq_sparse z _ R C tr tc hr hc hR hC⟩
+  obtain ⟨oe, htab⟩ := htab
+  obtain ⟨rows, frames, hrows, hu, hspec⟩ := tiledSegTable_sparse_spec z [(0, L)] R C tr tc hr hc hR hC hnd oe
+  obtain ⟨hcut, hzero⟩ := hspec 0 L (by simp)
+  -- every stored row belongs to channel 0
+  have hch : ∀ r ∈ rows, r.ch = 0 := by
+    obtain ⟨kept, hsub, hrk, _⟩ := tiledSegTable_stored z [(0, L)] R C tr tc hr hc hR hC hnd oe rows frames hrows
+    intro r hrm
+    rw [hrk, rowsOfKept, List.mem_map] at hrm
+    obtain ⟨x, hx, rfl⟩ := hrm
+    have hk : x.1 ∈ kept := (List.mem_zipIdx hx).2.2 ▸ List.getElem_mem _
+    have := hsub.subset hk
+    simp only [List.flatMap_cons, List.flatMap_nil, List.append_nil, List.mem_map] at this
+    obtain ⟨p, _, hp⟩ := this
+    rw [← hp]
+  have hfilter : chanRows (some 0) rows = rows := by
+    unfold chanRows
+    exact List.filter_eq_self.mpr (fun r hrm => by simpa using hch r hrm)
+  have hmapid : rows.map (fun r => { r with ch := 0 }) = rows := by
+    conv_rhs => rw [← List.map_id rows]
+    apply List.map_congr_left
+    intro r hrm
+    have := hch r hrm
+    cases r
+    simp only at this
+    simp [this]
+  have hu' : uniqueKey none rows = true := by
+    unfold uniqueKey
+    simp only
+    rw [hmapid]
+    exact hu
+  rw [hfilter] at hcut hzero
+  obtain ⟨out, hout, hpix⟩ := readRegion_general z L rows frames R C tr tc none rs re cs ce ai full true hr hc hu'
+    (by unfold chanRows; exact hcut) r0 r1 c0 c1 hstd (Or.inl rfl) hr01 hc01
+  refine ⟨(runHistory z rows frames R C tr tc full true steps none).1, fun _ => out, ?_, ?_, ?_⟩
+  · unfold tileThenHistory
+    rw [htab, hrows]
+  · rw [runHistory_indep, List.getElem?_map, hstep]
+    simp only [Option.map_some, stepRead_labelmap, hout]
+  · intro k i j hi0 hi1 hj0 hj1
+    show out i j = L (r0 - 1 + i) (c0 - 1 + j)
+    obtain ⟨p1, p2⟩ := hpix i j hi0 hi1 hj0 hj1
+    unfold chanRows at p1 p2
+    by_cases hcov : ∃ r ∈ rows, inTile tr tc r (r0 + i) (c0 + j)
+    · exact p1 hcov
+    · rw [p2 hcov]
+      have := hzero (r0 + i) (c0 + j) (by omega) (by omega) (by omega) (by omega) hcov
+      rw [← this]
+      congr 1 <;> omega
 
 
 end HdVerif.TilingLemmas
